@@ -65,7 +65,10 @@ PopAll ==
 
 Growing == Len(hist) <= GrowUntil
 Shrinking == Len(hist) > ShrinkFrom
-Next == \/ ~Shrinking /\ \E k \in Keys, v \in VSizes : SetK(k, v)
+\* a type change touches the root's extra data only (C02: "type changes")
+SetTypeM(ti) == /\ WithReads /\ Len(hist) <= MaxOps /\ UNCHANGED <<dig, root, dict, nextId>> /\ res' = res /\ Step(<<"msettype", ti>>)
+Next == \/ \E ti \in {43} : SetTypeM(ti)
+        \/ ~Shrinking /\ \E k \in Keys, v \in VSizes : SetK(k, v)
         \/ Growing /\ \E k \in {j \in Keys : ~HasKey(dict, j)}, v \in VSizes : SetK(k, v)    \* bias towards new keys
         \/ Shrinking /\ \E k \in {j \in Keys : HasKey(dict, j)}, v \in VSizes : SetK(k, v)
         \/ ~Growing /\ \E k \in (IF Shrinking THEN {j \in Keys : HasKey(dict, j)} ELSE Keys) : RemoveK(k)
